@@ -364,6 +364,64 @@ func runC12(c *Ctx) {
 				}
 			}
 		}
+		// which table a key resolves to: an extended key without a table of its own
+		// takes the value of its component; a key that merely ends in the name of a
+		// defined one (not separated by '+') belongs to no table and is refused
+		if p.ValueDateMode == "issue" && len(p.Ext) == 0 {
+			defined := map[string]bool{}
+			for _, rt := range cat.Rates {
+				defined[rt.Key] = true
+			}
+			for _, kv := range []struct {
+				key     string
+				refused bool
+			}{{p.Rate + "+verif-x", false}, {"verif-" + p.Rate, true}, {"verif" + p.Rate, true}} {
+				if defined[kv.key] || (!kv.refused && strings.Contains(p.Rate, "+")) {
+					continue // (the component rule is only unambiguous for a simple key)
+				}
+				inv := map[string]any{
+					"$schema": "https://gobl.org/draft-0/bill/invoice", "$regime": p.Regime, "code": "T-3", "issue_date": p.Date, "currency": reg.Currency,
+					"supplier": map[string]any{"name": "Supplier", "tax_id": map[string]any{"country": p.Regime}},
+					"customer": map[string]any{"name": "Customer"},
+					"lines": []any{map[string]any{"quantity": "1", "item": map[string]any{"name": "thing", "price": "100.00"},
+						"taxes": []any{map[string]any{"cat": p.Cat, "rate": kv.key}}}},
+				}
+				docJSON, _ := json.Marshal(inv)
+				var out []byte
+				var cerr error
+				if pan, _ := Safely(func() {
+					env, err := gx.EnvelopDoc(docJSON)
+					if cerr = err; err == nil {
+						out, cerr = json.Marshal(env)
+					}
+				}); pan != nil {
+					continue
+				}
+				c.R.Count("path_invoice_derived_keys", 1)
+				g1, g2 := "", ""
+				if cerr == nil {
+					var e struct {
+						Doc struct {
+							Lines []struct {
+								Taxes []struct {
+									Percent   string `json:"percent"`
+									Surcharge string `json:"surcharge"`
+								} `json:"taxes"`
+							} `json:"lines"`
+						} `json:"doc"`
+					}
+					if json.Unmarshal(out, &e) == nil && len(e.Doc.Lines) == 1 && len(e.Doc.Lines[0].Taxes) == 1 {
+						g1, g2 = e.Doc.Lines[0].Taxes[0].Percent, e.Doc.Lines[0].Taxes[0].Surcharge
+					}
+				}
+				switch {
+				case kv.refused && cerr == nil:
+					c.R.Fail(fmt.Sprintf("undefined-key-resolved:%s:%s:%s", p.Regime, p.Cat, p.Rate), fmt.Sprintf("%s %s: rate key %q is not defined (it only ends in %q) but the invoice calculates with percent %q", p.Regime, p.Cat, kv.key, p.Rate, g1), map[string]any{"point": p, "doc": json.RawMessage(docJSON)})
+				case !kv.refused && ((cerr != nil) != wantErr || (cerr == nil && (!pctEq(g1, wantPct) || !pctEq(g2, wantSur)))):
+					c.R.Fail(fmt.Sprintf("%s:%s:%s:%s:invoice:extended-key", cls, p.Regime, p.Cat, p.Rate), fmt.Sprintf("%s %s on %s: extended key %q got percent=%q surcharge=%q err=%v; its component %q has %q/%q in force (error expected=%v)", p.Regime, p.Cat, p.Date, kv.key, g1, g2, cerr, p.Rate, wantPct, wantSur, wantErr), map[string]any{"point": p, "doc": json.RawMessage(docJSON)})
+				}
+			}
+		}
 		if wantErr {
 			c.R.Count("before_first_value_points", 1)
 		}
